@@ -219,9 +219,9 @@ def execute(G, c):
     exp_pairs = [(y[0], value_of(y[2], y[3])[1]) for y in yields]
     if out.kind == "runaway" or len(seen_reqs) > limit:
         raise core.Failure("walk-does-not-end:tail=" + c["tail"], "%s: %d requests and still going (bound %d); yielded %r"
-                           % (info, len(seen_reqs), limit, [x[0] for x in (out.partial or out.value or [])][:12]))
+                           % (info, len(seen_reqs), limit, [x[0] for x in drivers.walk_pairs(out.partial or out.value or [], info)][:12]))
     got = out.value if out.kind == "ok" else (out.partial or [])
-    got = [tuple(x) for x in got]
+    got = drivers.walk_pairs(got, info)
     # invariants first (they give the most telling signatures)
     prev = c["base"]
     for g in got:
